@@ -30,6 +30,10 @@ def parse_kind(k):
         m = re.match(r"BindLhs\(lhs=(\d+),rhs=(-|\d+),created=\[([^\]]*)\]\)", k)
         return "BindLhs", [int(m.group(1))], dict(rhs=None if m.group(2) == "-" else int(m.group(2)),
                                                    created=[int(x) for x in m.group(3).split()])
+    if k.startswith("Expert("):
+        m = re.match(r"Expert\(children=\[([^\]]*)\],force_stale=(\d),invalid_children=(-?\d+),fire_all=(\d)\)", k)
+        return "Expert", [int(x) for x in m.group(1).split()], dict(force_stale=m.group(2) == "1", invalid=int(m.group(3)),
+                                                                     fire_all=m.group(4) == "1")
     if k.startswith("BindMain("):
         m = re.match(r"BindMain\(lhs_change=(\d+)\)", k)
         return "BindMain", [int(m.group(1))], {}
@@ -216,10 +220,14 @@ def parse_op(line):
     p = Parser(tokenize(line))
     k = p.next()
     if k in ("var", "const", "observe", "cloneobs", "dropobs", "disallow", "read", "stateunsub", "get", "setmaxheight",
-             "crashat", "observeexport", "dropnode", "dropvar"):
+             "crashat", "observeexport", "dropnode", "dropvar", "expert", "makestale", "invalidateexpert"):
         return (k, int(p.next()))
     if k in ("pair", "zip", "dependon", "mapref", "mapold", "set", "update", "modify", "replace", "replacewith",
              "unsubscribe", "mapexport"):
+        return (k, int(p.next()), int(p.next()))
+    if k == "adddep":
+        return (k, int(p.next()), int(p.next()), int(p.next()), p.next() == "1")
+    if k == "rmdep":
         return (k, int(p.next()), int(p.next()))
     if k == "setpair":
         return (k, int(p.next()), int(p.next()), int(p.next()))
